@@ -6,7 +6,8 @@ Differential, lock-step over the complete BFS of a base chart (scheme S, history
    substituted, and every transition must keep its internal/external nature and its ends;
  * copy: the chart is plugged (copy_from_statechart, source = its root) into two hosts (compound
    root / region of an orthogonal root) with an order-preserving renaming function; inside the
-   host it must behave as alone, up to the renaming."""
+   host it must behave as alone, up to the renaming; both hosts are given the same guest object,
+   which must come out unchanged (structure compared, and it is run as a third variant)."""
 import itertools
 import time as _time
 
@@ -126,8 +127,20 @@ def renamed_runner(spec, subset):
     return engine.Runner(spec, prebuilt=(sc, None)), ren, problems
 
 
-def host_runner(spec, kind):
-    guest, _ = build_api(spec)
+def structure(sc):
+    """everything a statechart says about itself, as plain data"""
+    st = {}
+    for n in sc.states:
+        o = sc.state_for(n)
+        st[n] = (type(o).__name__, sc.parent_for(n), tuple(sc.children_for(n)), getattr(o, 'initial', None),
+                 getattr(o, 'memory', None), getattr(o, 'on_entry', None), getattr(o, 'on_exit', None))
+    tr = [(t.source, t.target, t.event, t.guard, t.action, t.priority, t.internal) for t in sc.transitions]
+    return st, tr
+
+
+def host_runner(spec, kind, guest=None):
+    if guest is None:
+        guest, _ = build_api(spec)
     host = Statechart('host', preamble=spec.get('preamble'))
     if kind == 'compound':
         host.add_state(CompoundState('h', initial='slot'), None)
@@ -166,14 +179,28 @@ def work(task):
                               'base': 'unchanged', 'variant': pb})
             variants.append(('rename %s' % (sub,), R, ren, ()))
     else:
+        # one and the same guest object is plugged into both hosts, and then run itself: copying
+        # must leave the source sub-statechart as it was
+        guest, gobjs = build_api(spec)
+        before = structure(guest)
         for kind in ('compound', 'orthogonal'):
             try:
-                R, ren, drop = host_runner(spec, kind)
+                R, ren, drop = host_runner(spec, kind, guest)
             except Exception as e:
                 diffs.append({'label': 'copy into %s host' % kind, 'hist': None, 'op': ['BUILD'],
                               'base': 'copy succeeds', 'variant': '%s: %s' % (type(e).__name__, e)})
                 continue
             variants.append(('copy into %s host' % kind, R, ren, drop))
+            after = structure(guest)
+            if after != before:
+                what = [n for n in before[0] if after[0].get(n) != before[0][n]] or \
+                       [a for a, b in zip(after[1], before[1]) if a != b][:2] or 'number of transitions'
+                diffs.append({'label': 'copy into %s host' % kind, 'hist': None, 'op': ['STRUCTURE'],
+                              'base': 'the guest statechart is not modified by being copied',
+                              'variant': 'changed: %s' % (what,)})
+                before = after
+        variants.append(('the guest itself after having been copied twice',
+                         engine.Runner(spec, prebuilt=(guest, gobjs)), {}, ()))
     extra = {'variants': len(variants), 'comparisons': 0}
 
     def on_exec(R, ex):
